@@ -44,6 +44,12 @@ NaOf(c) == c \in {"Npu", "MemN"}
 TopoOrderOf(lst, prod) ==
     \A a, b \in 1..Len(lst) : lst[a] \in prod[lst[b]] => a < b
 
+\* every tensor a pass produces that somebody outside the pass uses (an operator of another pass, or the subgraph
+\* as its output) is one of the outputs the pass declares: the links between passes, the live ranges and the cut of
+\* NPU subgraphs (extract_subgraph walks ps.outputs) are all computed from the declared outputs.
+\* esc[i] / decl[i] = sets of tensor ids escaping from / declared by pass i.
+OutputsDeclaredOf(esc, decl) == \A i \in DOMAIN esc : esc[i] \subseteq decl[i]
+
 \* ---- extract_subgraph: place vector after the two absorption sweeps -----------------
 \* Pl(i) in {"Cpu","Npu","Mem","Startup"}, Na(i) BOOLEAN, evaluated on the passes of lst
 RECURSIVE Sweep(_, _, _, _, _)
